@@ -19,7 +19,7 @@ struct LssRun : NodeEnv {
         add_u8(specs, 0x1200, 0, CO_OBJ_D___R_, 2); add_typed(specs, T_SDOID, 0x1200, 1, CO_OBJ_DN__R_, 0x600); add_typed(specs, T_SDOID, 0x1200, 2, CO_OBJ_DN__R_, 0x580);
         add_typed(specs, T_HBPROD, 0x1017, 0, CO_OBJ_____RW, 0);
         NodeCfg cfg; cfg.nodeId = (uint8_t)plan.c("nodeid", 1); cfg.baud = 250000; cfg.freq = 1000; cfg.tmrNum = 4;
-        w.build(0, cfg, specs);
+        w.build(0, cfg, specs); S().lssLoadViaApi = plan.c("loadviaapi", 0) != 0; if (S().lssLoadViaApi) cov.hit("lss-load-callback-uses-the-api");
     }
     void boot(const char *what) {
         size_t mk = w.mark(); w.init(0); w.start(0); conf = false; activeId = (uint8_t)plan.c("nodeid", 1); activeBaud = 250000; selStrict = selLoose = idStrict = idLoose = 0; cfgNode = 0; cfgBaud = 0; m = M_PREOP;
@@ -129,7 +129,7 @@ struct LssRun : NodeEnv {
 };
 
 Plan gen_lss(Rng &r, bool thorough) {
-    Plan p; for (int i = 0; i < 4; i++) p.cfg["id" + std::to_string(i)] = r.below(8); p.cfg["nodeid"] = r.pick<int64_t>({1, 2, 64, 127});
+    Plan p; for (int i = 0; i < 4; i++) p.cfg["id" + std::to_string(i)] = r.below(8); p.cfg["nodeid"] = r.pick<int64_t>({1, 2, 64, 127}); p.cfg["loadviaapi"] = r.chance(1, 4);
     static const uint32_t IDV[] = {0, 1, 2, 0x7FFFFFFF, 0x80000000u, 0xFFFFFFFEu, 0xFFFFFFFFu, 0x12345678};
     uint32_t curId[4]; for (int i = 0; i < 4; i++) curId[i] = IDV[(size_t)p.cfg["id" + std::to_string(i)] % 8];   // the generator follows identity changes made through the API
     auto ident = [&](int part) { return curId[part]; };
